@@ -22,6 +22,16 @@ config reset -> same configuration as having no file; get/show never touch the f
 Second part (finite matrix): every preset x every linter command x way of delivering the generated file: the
 generated file parses, has no placeholder left, and the command exits 0/1 with a JSON report.
 
+Shared configuration (YAML anchors): an existing file may deliver part of its content through anchors - linter
+sections (or other keys) collected in one or two anchored holder mappings and merged back at the top level with
+`<<: *a` / `<<: [*a, *b]`, a section written as an alias `nesting: *a`, a user key that is an alias of an anchored
+section, a section that starts with `<<: *a`. `apply_share` rewrites the drawn item list into such a form (the parsed
+mapping keeps every key and value); a third of the drawn YAML documents use it, and a finite matrix (`share_cells`:
+way of sharing x holder style x document style x position x preset) runs one non-forced init-config on each form.
+The oracle is unchanged: "pre-existing setting" = key of the mapping the file parses to (yaml.safe_load, the loader
+thai-lint reads its configuration with), so a section that arrives through a merge key is present, must not be
+added again, and must keep its value and stay in effect.
+
 A history stops at its first failing step (later steps would only observe the consequences).
 """
 from __future__ import annotations
@@ -46,10 +56,13 @@ TECHNIQUE = ("Hypothesis-generated command histories (existing YAML/JSON config 
 RULE = (
     "case = {file name, abstract existing config (subset of linter sections in hyphen/underscore spelling, documented "
     "option values, unknown sections/keys, comments incl. template look-alikes, block/flow, quoted keys, ---, CRLF, no "
-    "final newline, indent) or none, 1..8 commands}. Non-trivial: (a non-forced init-config runs on a config that has "
+    "final newline, indent; in 1/3 of the YAML files part of the content is delivered through anchors: top-level merge key "
+    "`<<: *a` / `<<: [*a, *b]` over anchored holder mappings, section as alias, alias of a section, merge key inside a "
+    "section) or none, 1..8 commands}. Non-trivial: (a non-forced init-config runs on a config that has "
     ">=1 but not all template sections and >=1 comment or extra key) or (a rejected `config set` follows an accepted "
     "one). Distinct = hash of (file kind, section subset with spelling/style/quoting, style features, sequence of "
-    "step kinds with outcome class). Preset matrix cells are all distinct and non-trivial."
+    "step kinds with outcome class). Preset matrix cells and shared-configuration matrix cells (9 ways of sharing x holder block/flow x 3 document styles x 2 "
+    "positions, presets cycled) are all distinct and non-trivial."
 )
 ASSUMPTIONS = [
     "an 'existing valid configuration' is a YAML document that safe_load maps to a dict with string keys; a linter section is spelled with hyphens or underscores, never both in one file",
@@ -57,7 +70,8 @@ ASSUMPTIONS = [
     "validation rules are those documented by validate_config: log_level in DEBUG..CRITICAL, output_format in text/json/yaml, max_retries non-negative integer, timeout positive number, app_name non-empty string; values on which the rule's wording is open (bool for a number, other letter case, numeric app_name) only get the exit-code-independent invariants",
     "`config set` values are restricted to strings whose documented conversion (true/false -> bool, integer, float, else string) is unambiguous (no `1_000`, `+5`, ` 7`, `inf`, `nan`, leading zeros)",
     "config set/get/show/reset are always run with the group option --config <file> (the default location is computed from the cwd at import time and would differ between in-process and subprocess execution)",
-    "block scalars are generated only as one `|+` literal at the end of the file; folded scalars, anchors/aliases, multi-document files and an explicit `...` end marker are not generated",
+    "block scalars are generated only as one `|+` literal at the end of the file; folded scalars, multi-document files and an explicit `...` end marker are not generated",
+    "anchors/aliases are generated in four forms (top-level merge key over one or two anchored holder mappings, alias as a section's value, alias of an anchored section, merge key as the first entry of a section); the merge key `<<` means what yaml.safe_load - the loader thai-lint reads configuration files with - makes of it (YAML 1.1 merge: explicit keys win), so a key that arrives through a top-level merge is a pre-existing setting of the file; holder mappings and merged keys are disjoint from the file's explicit keys",
     "in-process CLI (click CliRunner) equals a fresh process; two fixed histories are cross-checked in subprocess mode on shard 0",
 ]
 BUDGET_S = {"quick": 100, "thorough": 1300}
@@ -165,6 +179,65 @@ COMMENTS = [
 _comment = st.one_of(st.sampled_from(COMMENTS), st.text(alphabet="abcdefgh XYZ:#-=_'\"[]{},.!?0129", min_size=1, max_size=20).map(lambda s: " " + s.rstrip()))
 
 
+HOLDERS = ["_shared", "x-defaults", "definitions"]
+SHARE_MODES = ["merge-top", "alias-section", "alias-of-section", "merge-in-section"]
+
+
+def apply_share(items: list, plan: dict) -> list:
+    """Rewrite a list of top-level items so that part of it is delivered through YAML anchors (pure function of its
+    arguments; the parsed mapping keeps every original key with its original value and gains the holder keys).
+
+    merge-top         k items move into one or two anchored holder mappings that a top-level `<<: *a` / `<<: [*a, *b]` merges back in
+    alias-section     one item's value moves to an anchored holder key, the item becomes `key: *a`
+    alias-of-section  one item gets an anchor and a further user key is an alias of it
+    merge-in-section  some options of one section move to an anchored holder, the section starts with `<<: *a`
+    """
+    items = [dict(it) for it in items]
+    used = {it["key"] for it in items}
+    names = [n for n in HOLDERS if n not in used]
+    mode, hstyle = plan["mode"], plan["hstyle"]
+    if not items:
+        return items
+    if mode == "merge-top":
+        k = 1 + plan["pick"] % min(3, len(items))
+        moved, rest = items[:k], items[k:]
+        groups = [moved[:1], moved[1:]] if (plan["two"] and k >= 2) else [moved]
+        holders = [{"key": names[n], "quote": "", "style": hstyle, "anchor": f"a{n}", "value": {it["key"]: it["value"] for it in grp}} for n, grp in enumerate(groups)]
+        merge = {"key": "<<", "style": "merge", "refs": [hd["anchor"] for hd in holders][::-1 if plan["as_list"] else 1], "as_list": plan["as_list"]}
+        i = plan["i"] % (len(rest) + 1)
+        j = i + plan["j"] % (len(rest) - i + 1)
+        return rest[:i] + holders + rest[i:j] + [merge] + rest[j:]
+    if mode in ("alias-section", "alias-of-section"):
+        x = plan["pick"] % len(items)
+        it = items[x]
+        if mode == "alias-section":
+            holder = {"key": names[0], "quote": "", "style": hstyle, "anchor": "a0", "value": it["value"]}
+            items[x] = {"key": it["key"], "quote": it.get("quote", ""), "style": "alias", "ref": "a0"}
+            i = plan["i"] % (x + 1)
+            return items[:i] + [holder] + items[i:]
+        it["anchor"] = "a0"
+        copy = {"key": "team-copy", "quote": "", "style": "alias", "ref": "a0"}
+        i = x + 1 + plan["i"] % (len(items) - x)
+        return items[:i] + [copy] + items[i:]
+    # merge-in-section
+    cands = [n for n, it in enumerate(items) if isinstance(it["value"], dict) and it["value"]]
+    if not cands:
+        return items
+    x = cands[plan["pick"] % len(cands)]
+    it = items[x]
+    keys = list(it["value"])
+    m = 1 + plan["j"] % len(keys)
+    holder = {"key": names[0], "quote": "", "style": hstyle, "anchor": "a0", "value": {k: it["value"][k] for k in keys[:m]}}
+    it["value"] = {k: it["value"][k] for k in keys[m:]}
+    it["merge_from"] = "a0"
+    i = plan["i"] % (x + 1)
+    return items[:i] + [holder] + items[i:]
+
+
+_share_plans = st.fixed_dictionaries({"mode": st.sampled_from(SHARE_MODES + ["merge-top"]), "hstyle": st.sampled_from(["block", "flow"]), "pick": st.integers(0, 11),
+                                      "two": _b, "as_list": _b, "i": st.integers(0, 11), "j": st.integers(0, 11)})
+
+
 @st.composite
 def docs(draw, json_file=False):
     names = draw(st.lists(st.sampled_from(list(OPTIONS)), unique=True, max_size=6)) if draw(st.integers(0, 9)) else \
@@ -185,6 +258,9 @@ def docs(draw, json_file=False):
     doc = {"items": [dict(it) for it in items]}
     if json_file:
         return doc
+    if draw(st.integers(0, 2)) == 0:
+        # part of the configuration is shared through YAML anchors / aliases / merge keys
+        doc["items"] = apply_share(doc["items"], draw(_share_plans))
     doc["doc_flow"] = draw(st.integers(0, 7)) == 0
     doc["start_marker"] = draw(st.integers(0, 7)) == 0
     doc["crlf"] = draw(st.integers(0, 7)) == 0
@@ -828,8 +904,16 @@ def check(case) -> Case:
             labels.append("feat:comments")
         if any(it.get("quote") for it in doc["items"]):
             labels.append("feat:quoted-key")
-        if any(it.get("style") == "flow" and isinstance(it["value"], dict) and it["value"] for it in doc["items"]):
+        if any(it.get("style") == "flow" and isinstance(it.get("value"), dict) and it["value"] for it in doc["items"]):
             labels.append("feat:flow-section")
+        for it in doc["items"]:
+            if it.get("style") == "merge":
+                via = [k for k in exp if canon(k) in TEMPLATE_NAMES and k not in {x["key"] for x in doc["items"]}]
+                labels.append("feat:top-level-merge-key" + ("-list" if len(it["refs"]) > 1 or it.get("as_list") else "") + ("" if via else "(no linter section)"))
+            elif it.get("style") == "alias":
+                labels.append("feat:alias-value" + (":linter-section" if canon(it["key"]) in TEMPLATE_NAMES else ""))
+            elif it.get("merge_from"):
+                labels.append("feat:merge-key-inside-section")
     failures = []
     outcomes = []
     model: dict = {}
@@ -852,15 +936,16 @@ def check(case) -> Case:
             if any(f.sig not in NON_CORRUPTING for f in fails):
                 break  # later steps would only observe the consequences
     # non-trivial rule
-    secs = [canon(it["key"]) for it in (doc or {}).get("items", []) if canon(it["key"]) in TEMPLATE_NAMES]
-    extras = [it for it in (doc or {}).get("items", []) if canon(it["key"]) not in TEMPLATE_NAMES]
+    secs = [canon(k) for k in (exp or {}) if canon(k) in TEMPLATE_NAMES]  # (the parsed mapping: also sections that arrive through a merge key)
+    extras = [it for it in (doc or {}).get("items", []) if canon(it["key"]) not in TEMPLATE_NAMES and it.get("style") != "merge"]
     nt_merge = "init-merge" in outcomes and 1 <= len(secs) < len(TEMPLATE_NAMES) and bool(comments or extras) and outcomes.index("init-merge") == 0
     nt_set = any(o.startswith("set-reject") and any(x.startswith("set-accept") for x in outcomes[:i]) for i, o in enumerate(outcomes))
     if any(o == "init-merge" for o in outcomes[1:]):
         labels.append("merge:after-other-commands")
     style = []
     if doc:
-        style = [sorted([canon(it["key"]), it["key"] != canon(it["key"]), it.get("style"), it.get("quote", "")] for it in doc["items"]),
+        style = [sorted([canon(it["key"]), it["key"] != canon(it["key"]), it.get("style"), it.get("quote", "")] + ([sorted(it["value"])] if it.get("anchor") and isinstance(it["value"], dict) else [])
+                        + ([it["merge_from"]] if it.get("merge_from") else []) for it in doc["items"]),
                  [bool(doc.get(k)) for k in ("doc_flow", "start_marker", "crlf")], doc.get("final_newline", True), bool(comments)]
     key = h([file, style, outcomes])
     sample = {"file": file, "existing": _txt(data), "steps": case["steps"]}
@@ -951,6 +1036,42 @@ def mode_selfcheck(ctx):
     ctx.stats.extra["history_mode_selfcheck_cases"] = len(SELFCHECK_CASES)
 
 
+# ------------------------------------------------------------------------------------ shared-configuration matrix
+
+SHARE_BASE = [
+    {"key": "nesting", "quote": "", "style": "block", "value": {"enabled": True, "max_nesting_depth": 2}, "before": [" stricter than the default"], "trail": None},
+    {"key": "srp", "quote": "", "style": "block", "value": {"enabled": True, "max_methods": 3}, "before": [], "trail": " small classes"},
+    {"key": "magic-numbers", "quote": "", "style": "flow", "value": {"enabled": True, "allowed_numbers": [0, 1, 42]}, "before": [], "trail": None},
+    {"key": "project_owner", "quote": "", "style": "block", "value": "platform team", "before": [], "trail": None},
+]
+
+
+def share_cells():
+    """Every way of sharing x holder written block/flow x document style (block, block with ---/CRLF, flow) x position of the shared part x preset:
+    one non-forced init-config (and its second run) on a fixed small configuration whose nesting / srp values differ
+    from every preset, with the linters run on the probe file before and after."""
+    cells = []
+    variants = [("merge-top", {"pick": 0, "two": False, "as_list": False}), ("merge-top", {"pick": 1, "two": False, "as_list": True}),
+                ("merge-top", {"pick": 2, "two": True, "as_list": False}), ("merge-top", {"pick": 1, "two": True, "as_list": True}),
+                ("alias-section", {"pick": 0}), ("alias-section", {"pick": 2}), ("alias-of-section", {"pick": 1}),
+                ("merge-in-section", {"pick": 0, "j": 0}), ("merge-in-section", {"pick": 1, "j": 1})]
+    n = 0
+    for mode, extra in variants:
+        for hstyle in ("block", "flow"):
+            for dstyle in ("block", "block-crlf-marker", "flow"):
+                for first in (True, False):
+                    plan = {"mode": mode, "hstyle": hstyle, "two": False, "as_list": False, "i": 0 if first else 1, "j": 0 if first else 5, **extra}
+                    if mode == "merge-in-section":
+                        plan["j"] = extra["j"]
+                    doc = {"items": apply_share(SHARE_BASE, plan), "doc_flow": dstyle == "flow", "crlf": dstyle == "block-crlf-marker", "start_marker": dstyle == "block-crlf-marker",
+                           "head": [" team configuration"], "tail": [], "indent": 2}
+                    preset = ([None] + PRESETS)[n % 4]
+                    n += 1
+                    cells.append({"kind": "history", "file": ".thailint.yaml" if n % 3 else "conf/custom.yaml", "doc": doc, "probe": True,
+                                  "steps": [{"op": "init", "preset": preset, "force": False, "again": ([None] + PRESETS)[(n + 1) % 4]}]})
+    return cells
+
+
 # ------------------------------------------------------------------------------------ run
 
 
@@ -961,6 +1082,9 @@ def run(ctx):
     mine = ctx.my_cells(cells)
     done = ctx.each(mine, check_preset)
     ctx.stats.extra.setdefault("matrix", {})["preset x carrier(auto/.thailint.yaml, group --config, command --config) x linter command"] = {"cells": len(mine), "done": done}
+    shared = ctx.my_cells(share_cells())
+    done = ctx.each(shared, check)
+    ctx.stats.extra["matrix"]["way of sharing (merge key / alias / merge inside section) x holder style x document style x position x preset"] = {"cells": len(shared), "done": done}
     ctx.explore(cases(), check, max_examples=ctx.n(70, 2500), salt=1)
 
 
